@@ -92,10 +92,12 @@ def lemma_vcs(needed=None):
         for u in l.uses:
             if u not in earlier:
                 raise RuntimeError("lemma %s uses %s which is not defined earlier" % (name, u))
-        uses = set(l.uses) | {n for n in earlier if registry.LEMMAS[n].auto}
+        uses = (set(l.uses) - l.ground_only) | ({n for n in earlier if registry.LEMMAS[n].auto} if not l.no_auto else set())
         for (nm, hyps, goal) in l.obligations():
             vc = VC("lemma/" + nm, hyps, goal, 0, "lemma:" + name, "lemma", uses)
             vc.depth = l.depth
+            vc.unfold_only = l.unfold_only
+            vc.inline_defs = l.inline_defs
             out.append(vc)
     return out
 
